@@ -45,16 +45,20 @@ type insertQuery struct {
 }
 
 type insertRun struct {
-	wire      []byte // everything the client wrote after the handshake
-	err       error
-	snapshots [][]*CNode // expected contents of every input block, in order
-	extCols   []blockCol
-	cols      []blockCol
-	callbacks int
-	poked     int // columns whose rows were rewritten in place through their exported storage
+	wire          []byte // everything the client wrote after the handshake
+	err           error
+	snapshots     [][]*CNode // expected contents of every input block, in order
+	extCols       []blockCol
+	cols          []blockCol
+	callbacks     int
+	poked         int // columns whose rows were rewritten in place through their exported storage
+	abandonedPing bool
 }
 
 var errInput = errors.New("input callback: injected failure")
+
+// every third query is preceded by an abandoned Ping on the same client
+var c02Calls int
 
 // executes Do with the plan against the scripted server; computes the expected block snapshots (the spec)
 func runInsertPlan(r *Rng, sc *simClient, q insertQuery, p insertPlan, streamSchema bool) insertRun {
@@ -183,6 +187,15 @@ func runInsertPlan(r *Rng, sc *simClient, q insertQuery, p insertPlan, streamSch
 	defer func() { ch.VerifGate = nil }()
 	ctx, cancel := context.WithTimeout(context.Background(), 20*time.Second)
 	defer cancel()
+	c02Calls++
+	if c02Calls%3 == 0 {
+		// an earlier call on the same client that was abandoned before anything was written: a Ping with a context that is
+		// already done.  Nothing of it may precede the query.
+		pctx, pcancel := context.WithCancel(context.Background())
+		pcancel()
+		_ = sc.client.Ping(pctx)
+		run.abandonedPing = true
+	}
 	run.err = sc.client.Do(ctx, chq)
 	w, _, _, _ := sc.conn.snapshot()
 	run.wire = w[sc.helloLen:]
